@@ -98,7 +98,7 @@ var vfsReplacements = map[string]string{
 	"(*os.File).Seek": "vfsSeek", "(*os.File).Sync": "vfsSync", "(*os.File).Truncate": "vfsTruncateFD", "(*os.File).Close": "vfsClose",
 	"(*os.File).Name": "vfsName", "(*os.File).Stat": "vfsFileStat", "os.Stat": "vfsStat", "os.Remove": "vfsRemove", "os.RemoveAll": "vfsRemoveAll",
 	"os.Rename": "vfsRename", "os.MkdirAll": "vfsMkdirAll", "os.ReadDir": "vfsReadDir", "os.ReadFile": "vfsReadFile", "os.WriteFile": "vfsWriteFile",
-	"os.Truncate": "vfsTruncate", "os.MkdirTemp": "vfsMkdirTemp",
+	"os.Truncate": "vfsTruncate", "os.MkdirTemp": "vfsMkdirTemp", "path/filepath.Glob": "vfsGlob",
 }
 
 var defaultNoop = []string{"go.uber.org/zap", "log", "github.com/influxdata/influxdb/logger", "expvar", "runtime/debug", "runtime/pprof", "github.com/influxdata/influxdb/pkg/tracing", "github.com/opentracing/opentracing-go"}
